@@ -814,6 +814,11 @@ class Planner:
             p = pw if pw is not None else (self.rng.choice(pws) if pws else b"x")
             r = vnc_encrypt(p, ch)
             return r[:8] + bytes(self.rng.randrange(256) for _ in range(8))
+        if kind == "truncpw":
+            # the password without its last significant character (8-character passwords: the 7-byte prefix)
+            p = pw if pw is not None else (self.rng.choice(pws) if pws else b"x")
+            p = p.split(b"\0")[0][:8]
+            return vnc_encrypt(p[:-1] if len(p) > 1 else p + b"x", ch)
         if kind == "otherpw":
             return vnc_encrypt(self.rng.choice(NORMAL_PWS) + b"!", ch)
         if kind == "stale":
@@ -822,7 +827,7 @@ class Planner:
         return bytes(self.rng.randrange(256) for _ in range(16))
 
 
-RESP_KINDS = ["correct", "correct", "correct", "echo", "zeros", "flip", "half", "otherpw", "stale", "random"]
+RESP_KINDS = ["correct", "correct", "correct", "echo", "zeros", "flip", "half", "otherpw", "stale", "random", "truncpw"]
 
 
 def pick_pw_screen(pl, rng, weak_pool, force_weak=False):
